@@ -214,27 +214,36 @@ Definition wif_key_obj (secret : bytes) (compressed : bool) (nw : str) : key_obj
 Lemma pow256_32 : 256 ^ Z.of_nat 32 = 2 ^ 256.
 Proof. vm_compute. reflexivity. Qed.
 
-Theorem wif_roundtrip_lemma : forall fold n km,
+Lemma secret_range_true kb : 0 < of_be kb < secp256k1_n -> secret_in_range kb = true.
+Proof.
+  intros [H1 H2]. unfold secret_in_range. apply andb_true_iff. split; apply Z.ltb_lt; assumption.
+Qed.
+
+Lemma n_lt_2_256 : secp256k1_n < 2 ^ 256.
+Proof. apply Z.ltb_lt. vm_compute. reflexivity. Qed.
+
+Theorem wif_roundtrip_lemma : forall fold oc n km,
   In n all_networks ->
-  km_private km = true -> length (km_secret km) = 32%nat -> of_be (km_secret km) <> 0 ->
+  km_private km = true -> length (km_secret km) = 32%nat -> 0 < of_be (km_secret km) < secp256k1_n ->
   km_network km = nw_name n ->
   exists w,
-    lib_wif km = Ok w /\
+    lib_wif oc km = Ok w /\
     In (nw_name n) (lib_networks_by_wif (nw_prefix_wif n)) /\
     (forall ip, lib_get_key_format fold true (KStr w) ip =
        KfOk {| kf_format := if km_compressed km then FWifCompressed else FWif;
                kf_networks := Some (lib_networks_by_wif (nw_prefix_wif n)); kf_private := true; kf_scripts := [];
                kf_witness := [default_witness]; kf_multisig := [false] |}) /\
     (forall h c ip, network_defined h = true ->
-       lib_key_import fold true (KStr w) (Some h) c ip = Ok (wif_key_obj (km_secret km) (km_compressed km) h)) /\
+       lib_key_import fold true oc (KStr w) (Some h) c ip = Ok (wif_key_obj (km_secret km) (km_compressed km) h)) /\
     (forall c ip,
-       lib_key_import fold true (KStr w) None c ip =
+       lib_key_import fold true oc (KStr w) None c ip =
        match resolve_networks (lib_networks_by_wif (nw_prefix_wif n)) with
        | Ok nw => Ok (wif_key_obj (km_secret km) (km_compressed km) nw)
        | Err e => Err e
        end).
 Proof.
-  intros fold n km Hn Hpriv Hlen Hnz Hnet.
+  intros fold oc n km Hn Hpriv Hlen Hrange Hnet.
+  assert (Hnz : of_be (km_secret km) <> 0) by lia.
   destruct (wif_version_shape n Hn) as [v [Hver [Hv _]]].
   destruct (find_network_name n Hn) as [n' [Hfind [_ Hsame]]].
   set (secret := km_secret km) in *.
@@ -249,19 +258,20 @@ Proof.
                kf_networks := Some (lib_networks_by_wif (nw_prefix_wif n)); kf_private := true; kf_scripts := [];
                kf_witness := [default_witness]; kf_multisig := [false] |}).
   { intros ip. rewrite (wif_text_format fold true v secret flag Hv Hlen Hflag n ip Hn Hver), Hpc, Hver. reflexivity. }
-  assert (Hpart : forall c, key_private_part fold true
+  assert (Hpart : forall c, key_private_checked fold true
               (KStr (b58_enc ((v :: secret ++ flag) ++ firstn 4 (sha256d (v :: secret ++ flag)))))
               (if km_compressed km then FWifCompressed else FWif) c = Ok (secret, km_compressed km)).
-  { intros c. rewrite (wif_text_private_part fold true v secret flag n _ c Hn Hver)
+  { intros c. unfold key_private_checked.
+    assert (Hin_range : secret_in_range secret = true) by (apply secret_range_true; exact Hrange). rewrite (wif_text_private_part fold true v secret flag n _ c Hn Hver)
       by (destruct (km_compressed km); auto).
     rewrite Hpc. subst flag. destruct (km_compressed km).
     - change (v :: secret ++ [x01]) with ((v :: secret) ++ [x01]).
-      rewrite droplast_app_exact by reflexivity. cbn [skipn]. rewrite Hlen. reflexivity.
-    - rewrite app_nil_r. cbn [skipn]. rewrite Hlen. reflexivity. }
+      rewrite droplast_app_exact by reflexivity. cbn [skipn]. rewrite Hlen. cbn [Nat.eqb]. rewrite Hin_range. reflexivity.
+    - rewrite app_nil_r. cbn [skipn]. rewrite Hlen. cbn [Nat.eqb]. rewrite Hin_range. reflexivity. }
   pose proof (networks_by_wif_in n Hn) as Hin.
   split; [|split; [exact Hin | split; [exact Hfmt | split]]].
-  - unfold lib_wif. rewrite Hpriv. cbn [negb].
-    fold secret.
+  - unfold lib_wif, km_constructible. rewrite Hpriv. fold secret.
+    rewrite (secret_range_true secret Hrange). cbn [negb].
     replace (of_be secret =? 0) with false by (symmetry; apply Z.eqb_neq; exact Hnz).
     pose proof (of_be_range secret) as Hr. rewrite Hlen, pow256_32 in Hr.
     replace (2 ^ 256 <=? of_be secret) with false by (symmetry; apply Z.leb_gt; lia).
@@ -290,8 +300,8 @@ Definition wif_bug_km : keymeta :=
      km_witness := "legacy"%string; km_multisig := false |}.
 
 Lemma wif_roundtrip_old_code_refuted :
-  match lib_wif wif_bug_km with
-  | Ok w => lib_key_import false false (KStr w) None true None = Err EKey /\
+  match lib_wif (fun _ => true) wif_bug_km with
+  | Ok w => lib_key_import false false (fun _ => true) (KStr w) None true None = Err EKey /\
             (exists i, lib_get_key_format false false (KStr w) None = KfOk i /\ kf_format i = FWifCompressed)
   | Err _ => False
   end.
@@ -335,32 +345,39 @@ Ltac ip_private ip Hip :=
 
 (* private_byte, private_hex, secret: the 32-byte secret comes back (leading zero bytes included),
    compressed is whatever the caller says, the network is the hint or the default *)
-Theorem raw_private_roundtrip : forall fold wc secret h c ip,
-  length secret = 32%nat -> of_be secret <> 0 -> hint_ok h ->
-  lib_key_import fold wc (KBytes secret) h c ip = Ok (raw_key_obj true secret c (hint_network h) FBin) /\
-  lib_key_import fold wc (KStr (hex_encode secret)) h c ip = Ok (raw_key_obj true secret c (hint_network h) FHex) /\
-  lib_key_import fold wc (KInt (of_be secret)) h c ip = Ok (raw_key_obj true secret c (hint_network h) FDecimal).
+Theorem raw_private_roundtrip : forall fold wc oc secret h c ip,
+  length secret = 32%nat -> 0 < of_be secret < secp256k1_n -> hint_ok h ->
+  lib_key_import fold wc oc (KBytes secret) h c ip = Ok (raw_key_obj true secret c (hint_network h) FBin) /\
+  lib_key_import fold wc oc (KStr (hex_encode secret)) h c ip = Ok (raw_key_obj true secret c (hint_network h) FHex) /\
+  lib_key_import fold wc oc (KInt (of_be secret)) h c ip = Ok (raw_key_obj true secret c (hint_network h) FDecimal).
 Proof.
-  intros fold wc secret h c ip Hlen Hnz Hh.
+  intros fold wc oc secret h c ip Hlen Hrange Hh.
+  assert (Hnz : of_be secret <> 0) by lia.
+  pose proof (secret_range_true secret Hrange) as Hsr.
   pose proof (of_be_range secret) as Hr. rewrite Hlen, pow256_32 in Hr.
+  assert (Hnet : (match h with
+                  | Some x => if network_defined x then Ok x else Err ENetwork
+                  | None => Ok default_network
+                  end) = @Ok str (hint_network h)) by (apply key_import_net; exact Hh).
   repeat split.
-  - unfold lib_key_import. cbn [lib_get_key_format]. unfold gkf_bytes. rewrite Hlen.
-    cbn [Z.of_nat Z.eqb Pos.eqb Pos.of_succ_nat Pos.succ orb andb kf_plain kf_private kf_networks kf_format].
+  - assert (G : gkf_bytes secret = kf_plain FBin true) by (unfold gkf_bytes; rewrite Hlen; reflexivity).
+    unfold lib_key_import. cbn [lib_get_key_format]. rewrite G.
+    cbn [kf_plain kf_private kf_networks kf_format]. rewrite Hnet.
     replace (match ip with Some true => true | _ => true end) with true by (destruct ip as [[|]|]; reflexivity).
-    destruct h as [x|]; cbn [hint_ok hint_network] in *; [rewrite Hh|]; reflexivity.
-  - unfold lib_key_import. cbn [lib_get_key_format]. unfold gkf_str, len_is.
-    rewrite hex_encode_length, Hlen.
-    cbn [Nat.mul Nat.add Z.of_nat Z.eqb Pos.eqb Pos.of_succ_nat Pos.succ orb andb kf_plain kf_private kf_networks kf_format ip_default_true].
+    unfold key_private_checked. cbn [key_private_part]. rewrite Hsr. reflexivity.
+  - assert (G : gkf_str fold wc (hex_encode secret) None = kf_plain FHex true).
+    { unfold gkf_str, len_is. rewrite hex_encode_length, Hlen. reflexivity. }
+    unfold lib_key_import. cbn [lib_get_key_format]. rewrite G.
+    cbn [kf_plain kf_private kf_networks kf_format]. rewrite Hnet.
     replace (match ip with Some true => true | _ => true end) with true by (destruct ip as [[|]|]; reflexivity).
-    cbn [key_private_part]. rewrite hex_decode_encode, Hlen. cbn [Nat.eqb].
-    destruct h as [x|]; cbn [hint_ok hint_network] in *; [rewrite Hh|]; reflexivity.
+    unfold key_private_checked. cbn [key_private_part]. rewrite hex_decode_encode, Hlen. cbn [Nat.eqb].
+    rewrite Hsr. reflexivity.
   - unfold lib_key_import. cbn [lib_get_key_format].
     replace (of_be secret =? 0) with false by (symmetry; apply Z.eqb_neq; exact Hnz).
     replace (of_be secret <? 0) with false by (symmetry; apply Z.ltb_ge; lia).
-    cbn [kf_plain kf_private kf_networks kf_format].
+    cbn [kf_plain kf_private kf_networks kf_format]. rewrite Hnet.
     replace (match ip with Some true => true | _ => true end) with true by (destruct ip as [[|]|]; reflexivity).
-    cbn [key_private_part].
+    unfold key_private_checked. cbn [key_private_part].
     replace (2 ^ 256 <=? of_be secret) with false by (symmetry; apply Z.leb_gt; lia).
-    rewrite <- Hlen, be_bytes_of_be.
-    destruct h as [x|]; cbn [hint_ok hint_network] in *; [rewrite Hh|]; reflexivity.
+    rewrite <- Hlen, be_bytes_of_be. rewrite Hsr. reflexivity.
 Qed.
